@@ -209,3 +209,48 @@ def truth_table(func, e, at, atoms):
         env = dict((a, bool((k >> i) & 1)) for i, a in enumerate(atoms))
         out.append(bool_eval(func, e, at, env))
     return tuple(out)
+
+
+def cond_eval(func, e, env, atom_of, _depth=0):
+    """Truth value of condition `e` under `env` (atom name -> bool).  atom_of(fact) -> (atom name, sense) | None maps
+    the normal form of a leaf comparison (and its expansions through single-definition locals) to an atom."""
+    from .core import _expand_fact
+    if isinstance(e, ast.UnaryOp) and isinstance(e.op, ast.Not):
+        return not cond_eval(func, e.operand, env, atom_of, _depth + 1)
+    if isinstance(e, ast.BoolOp):
+        vals = [cond_eval(func, v, env, atom_of, _depth + 1) for v in e.values]
+        return all(vals) if isinstance(e.op, ast.And) else any(vals)
+    for pol in (True, False):
+        fa = norm_test(e, pol)
+        out = [(fa, 0)]
+        _expand_fact(func, fa, 0, out)
+        for (g, _) in out:
+            r = atom_of(g)
+            if r is not None:
+                name, sense = r
+                v = env[name] == sense
+                return v if pol else (not v)
+    if isinstance(e, ast.Name) and e.id in func.locals and _depth < 4:
+        from .core import _unique_assign
+        v = _unique_assign(func, e.id)
+        if isinstance(v, (ast.BoolOp, ast.Compare, ast.UnaryOp)):
+            return cond_eval(func, v, env, atom_of, _depth + 1)
+    raise Unrecognised('condition `%s` is not one of the atoms' % unparse(e)[:60])
+
+
+def guard_table(func, at, atoms, atom_of, within=None):
+    """Truth table (over `atoms`, binary counting order) of the conjunction of all branch conditions that dominate cfg
+    node `at` (restricted to conditions evaluated inside loop `within`, if given).  Conditions that mention none of the
+    atoms' vocabulary raise Unrecognised unless `ignore` says they are irrelevant."""
+    cfg = func.cfg
+    conds = [a for a in cfg.assumes_at(at) if within is None or within in a.loops]
+    tests = [(a.ast, a.pol) for a in conds]
+    out = []
+    for k in range(2 ** len(atoms)):
+        env = dict((a, bool((k >> i) & 1)) for i, a in enumerate(atoms))
+        v = True
+        for (t, pol) in tests:
+            r = cond_eval(func, t, env, atom_of)
+            v = v and (r == pol)
+        out.append(v)
+    return tuple(out), tests
